@@ -355,6 +355,14 @@ ObserveInf(st, ob) ==
       [] ob.o = "first" -> ROk(DeclAt(st, 0))
       [] ob.o = "second" -> ROk(DeclAt(st, 1))
       [] ob.o = "index" /\ NatIx(ob.a1) -> ROk(DeclAt(st, IntToInt(ob.a1.i)))
+      \* repeat and cycle are indexed in O(1): any non-negative index that fits a machine word addresses
+      \* element (cursor + i) mod n of the cycle, however large i is
+      [] ob.o = "index" /\ ob.a1.c = "int" /\ ob.a1.i.s >= 0 /\ st.ty \in {"repeat", "cycle"}
+         /\ IntCmp(ob.a1.i, IntMk(1, NatShl(<<1>>, 63))) < 0 ->
+            IF st.ty = "repeat" THEN ROk(st.x)
+            ELSE LET n == Len(st.xs)
+                     r == IntDivModFloor(ob.a1.i, IntFromInt(n))[2]
+                 IN ROk(st.xs[((st.pos + IntToInt(r)) % n) + 1])
       [] ob.o = "slice" /\ (ob.a1.c = "omit" \/ NatIx(ob.a1)) /\ NatIx(ob.a2) ->
             LET lo == IF ob.a1.c = "omit" THEN 0 ELSE IntToInt(ob.a1.i)
                 hi == IntToInt(ob.a2.i)
